@@ -391,7 +391,7 @@ class C10World(World):
             op["on"] = sched.chance(0.6)
         elif kind == "update":
             op.update(how=sched.pick(["sgd", "perturb", "data_assign", "data_inplace", "copy", "replace_param"]), seed=data.seed30(),
-                      mag=data.pick([0.1, 0.3, 0.3, 1.0]))
+                      mag=data.pick([0.1, 0.3, 0.3, 1.0, 1e-3, 1e-5]))     # also updates a fuzzy "did it change?" test would miss
             if op["how"] == "sgd" and self.cfg.get("real_optim"):
                 op["real_optim"] = True
         elif kind == "load":
@@ -404,8 +404,8 @@ class C10World(World):
             else:
                 if sched.chance(0.25):
                     op["assign"] = True
-                if faulty and fault.chance(0.1):
-                    op["interrupt"] = fault.randint(1, 8 * (8 if self.cfg.get("opcode") else 1))
+                # no interruption inside load_state_dict either: torch raises load errors only after every hook ran,
+                # so "invalidate after the copy" equals "before" over all completed (also failed) loads
         elif kind == "restart":
             op["seed"] = data.seed30()
         return op
